@@ -233,6 +233,10 @@ func runOne(t *testing.T, prop, tier string, sc Scenario, st *simrt.Stream, log 
 	}
 	sort.Strings(raceKeys)
 	for _, k := range raceKeys {
+		if strings.HasPrefix(k, "update:") {
+			res.Viol = append(res.Viol, Violation{prop, "concurrent-update/" + strings.TrimPrefix(k, "update:"), sim.Races[k]})
+			continue
+		}
 		res.Viol = append(res.Viol, Violation{prop, "concurrent-map-access/" + k, sim.Races[k]})
 	}
 	if sim.Deadlock {
